@@ -802,7 +802,23 @@ def opt_gate(repo, res):
         ("ffcx.ir.representation", "_compute_integral_ir", r"ir\['part'\] == TensorPart\.diagonal", r"form_data\.rank == 2"),
         ("ffcx.ir.representation", "_compute_form_ir", r"tensor_part == TensorPart\.diagonal", r"len\(args\) == 2"),
         (IG, "IntegralGenerator.generate_block_parts", r"self\.ir\.part == TensorPart\.diagonal", r"block_rank == 2"),
+        ("ffcx.ir.integral", "_compute_integral_ir", r"TensorPart\.from_str\(p\['part'\]\) == TensorPart\.diagonal", r"len\(blockmap\) == 2"),
     ]
+    # every other test of the option anywhere in the package must be triaged here (exempt = reason)
+    exempt = {
+        "p['part'] == TensorPart.diagonal": "ir.integral: compares the option string with the enum (never true); body only asserts a bilinear form",
+        "TensorPart.from_str(p['part']) != TensorPart.diagonal": "ir.integral: the full-tensor branch; body is an assert",
+    }
+    listed = {(mn, q_) for mn, q_, _o, _r in sites}
+    for mod in repo.modules.values():
+        for fn_ in mod.funcs.values():
+            for n in walk_no_nested(fn_.node):
+                if isinstance(n, (ast.If, ast.IfExp)) and "diagonal" in ast.unparse(n.test):
+                    t = ast.unparse(n.test)
+                    qn = fn_.key.split(":", 1)[1]
+                    if (mod.name, qn) in listed or t in exempt or qn.startswith("TensorPart."):
+                        continue
+                    raise AnalysisError(f"{fn_.key}: untriaged test of the `part` option `{t}` (add it to the OPT-GATE site table)")
     for modname, q, opt_pat, rank_pat in sites:
         m = repo.mod(modname)
         h = m.func(q)
@@ -810,6 +826,8 @@ def opt_gate(repo, res):
         cfg = CFG(h.node)
         tests = [(tid, st) for tid, st in cfg.if_stmt.items() if re.search(opt_pat, ast.unparse(st.test))]
         if not tests:
+            if modname == "ffcx.ir.integral":
+                continue  # its absence is reported by `diagonal-skips-offdiagonal-blocks` below
             raise AnalysisError(f"{q}: test of the `part` option not found")
         rank_tests = [tid for tid, st in cfg.if_stmt.items() if re.search(rank_pat, ast.unparse(st.test))]
         for tid, st in tests:
